@@ -77,6 +77,92 @@ theorem specSet_lookup (m : List (Str × Blob)) (o o' : Str) (b : Blob) :
       · have : (o' == k) = false := by simpa using h
         simp only [this, ih]
 
+/-- the note the last entry for `o` in a batch carries, if `o` occurs -/
+def lastFor (o : Str) : List (Str × Blob) → Option Blob
+  | [] => none
+  | (o', b) :: rest =>
+    match lastFor o rest with
+    | some x => some x
+    | none => if o' = o then some b else none
+
+theorem lastFor_none_iff (o : Str) (l : List (Str × Blob)) :
+    lastFor o l = none ↔ ∀ e ∈ l, e.1 ≠ o := by
+  induction l with
+  | nil => simp [lastFor]
+  | cons e l ih =>
+    obtain ⟨o', b⟩ := e
+    unfold lastFor
+    cases h : lastFor o l with
+    | some x =>
+      simp only [reduceCtorEq, false_iff]
+      intro hall
+      have := ih.2 (fun e he => hall e (by simp [he]))
+      rw [h] at this; cases this
+    | none =>
+      have hl := ih.1 h
+      by_cases ho : o' = o
+      · rw [if_pos ho]
+        simp only [reduceCtorEq, false_iff]
+        intro hall; exact hall (o', b) (by simp) ho
+      · simp only [ho, if_false, true_iff]
+        intro e he
+        rcases List.mem_cons.1 he with rfl | he
+        · exact ho
+        · exact hl e he
+
+theorem foldl_specSet_lookup (l : List (Str × Blob)) (m : List (Str × Blob)) (o : Str) :
+    (l.foldl (fun m e => specSet m e.1 e.2) m).lookup o
+      = match lastFor o l with | some b => some b | none => m.lookup o := by
+  induction l generalizing m with
+  | nil => rfl
+  | cons e l ih =>
+    obtain ⟨o', b⟩ := e
+    rw [List.foldl_cons, ih, lastFor]
+    cases lastFor o l with
+    | some x => rfl
+    | none =>
+      simp only [specSet_lookup]
+      by_cases ho : o = o'
+      · subst ho; simp
+      · have : ¬ o' = o := fun e => ho e.symm
+        simp [ho, this]
+
+theorem lastFor_dedupeLast (o : Str) (es : List (Str × Blob)) :
+    lastFor o (dedupeLast es) = lastFor o es := by
+  induction es with
+  | nil => rfl
+  | cons e es ih =>
+    obtain ⟨o', b⟩ := e
+    unfold dedupeLast
+    split
+    · rename_i hany
+      rw [ih, lastFor]
+      cases h : lastFor o es with
+      | some x => rfl
+      | none =>
+        have hn := (lastFor_none_iff o es).1 h
+        by_cases ho : o' = o
+        · exfalso
+          rw [List.any_eq_true] at hany
+          obtain ⟨x, hx, hxe⟩ := hany
+          exact hn x hx (by rw [← ho]; simpa using hxe)
+        · simp [ho]
+    · rw [lastFor, lastFor, ih]
+
+/-- **last entry wins.** In a batch the note written for `o` is the one of the *last* entry
+    naming `o` (the de-duplication loop of `notes_add_batch`); objects the batch does not name
+    keep their note. -/
+theorem batch_last_entry_wins (m : List (Str × Blob)) (es : List (Str × Blob)) (o : Str) :
+    (specStep m (.batch es)).lookup o
+      = match lastFor o es with | some b => some b | none => m.lookup o := by
+  simp only [specStep]
+  rw [foldl_specSet_lookup, lastFor_dedupeLast]
+
+/-- `notes_add` sets the note of `o` and nothing else -/
+theorem add_sets_note (m : List (Str × Blob)) (lay : Str → Nat) (o o' : Str) (b : Blob) :
+    (specStep m (.add lay o b)).lookup o' = if o' = o then some b else m.lookup o' :=
+  specSet_lookup m o o' b
+
 theorem mem_dedupeLast (es : List (Str × Blob)) : ∀ e ∈ dedupeLast es, e ∈ es := by
   induction es with
   | nil => intro e he; cases he
@@ -540,6 +626,8 @@ end GitAi.NotesTree
 #print axioms GitAi.NotesTree.one_note_per_object
 #print axioms GitAi.NotesTree.lookup_finds_all
 #print axioms GitAi.NotesTree.specSet_lookup
+#print axioms GitAi.NotesTree.batch_last_entry_wins
+#print axioms GitAi.NotesTree.add_sets_note
 #print axioms GitAi.NotesTree.witness_O6_duplicate_before_fix
 #print axioms GitAi.NotesTree.witness_O6_missed_lookup_before_fix
 #print axioms GitAi.NotesTree.regression_O6_fixed
